@@ -31,7 +31,7 @@ def plan(seed, overrides=None):
     recipes = {}
     nd = rr.randint(1, 3)
     for i in range(nd):
-        recipes[f"desc{i}"] = G.gen_net_description(rr, degenerate=rr.random() < cfg["degenerate_rate"])
+        recipes[f"desc{i}"] = G.gen_net_description(rr, degenerate=rr.random() < cfg["degenerate_rate"], wide=rr.random() < 0.35)
         recipes[f"cdesc{i}"] = G.gen_cir_description(rr, degenerate=rr.random() < cfg["degenerate_rate"])
         recipes[f"doc{i}"] = G.gen_document_recipe(rr, python_form=True)
         # a twin that serialises to exactly the same number of bytes (only one digit differs)
@@ -52,7 +52,7 @@ def plan(seed, overrides=None):
             recipes[f"ldoc{i}"] = {"kind": "value", "v": enc([G.gen_document(rr, python_form=True) if rr.random() < 0.5 else G.cx(rr) for _ in range(rr.randint(0, 3))])}
         else:
             recipes[f"ldoc{i}"] = {"kind": "value", "v": enc(G.cx(rr))}
-        z = G.cx(rr) * rr.choice([1, 10, 0.01])
+        z = G.cx(rr) * rr.choice([1, 10, 0.01, 1, 10, 0.01, 1e-13, 3.7e-12, 1e-9, 1e9])
         n = G.notation(rr, z)
         if "phase" in n and rr.random() < 0.5:
             import math
